@@ -69,9 +69,39 @@ def main(argv=None):
             for i in hs['shards'](shards) if callable(hs['shards']) else hs['shards']:
                 sh = dict(shards[i])
                 sh['_env'] = dict(sh.get('_env') or {}, **hs['env'])
+                sh['_env'].setdefault('VERIF_HOST_CALENDAR', '6')
                 sh['host_settings'] = True
                 extra.append(sh)
             shards = shards + extra
+        # ... and in an interpreter started with PYTHONOPTIMIZE=1 (python -O): assert statements are stripped from the library AND from the
+        # generated class when it is compiled, __debug__ is False. Code that does part of its work inside an assert (a check, a
+        # side effect, a conversion) behaves differently there; properties do not quantify over the interpreter's optimisation level.
+        # OPTIMISED_SHARDS (indices or a function of the plan) names the shards; default: the first, a middle and the last planned one.
+        base_n = len(mod.plan(tier, seed))
+        osh = getattr(mod, 'OPTIMISED_SHARDS', None)
+        idx = osh(shards[:base_n]) if callable(osh) else (osh if osh is not None else sorted({0, base_n // 2, base_n - 1}))
+        if os.environ.get('VERIF_NO_OPTIMISED_SHARDS'):
+            idx = []          # self-test switch: what the harness saw before these shards existed (DESIGN section 7, round 10)
+        extra = []
+        for i in idx:
+            sh = dict(shards[i])
+            sh['_env'] = dict(sh.get('_env') or {}, PYTHONOPTIMIZE='1')
+            sh['optimised_interpreter'] = True
+            extra.append(sh)
+        shards = shards + extra
+        # ... and over workbooks that carry what real workbooks carry besides values (wbspec.decorate: number formats, hidden rows and
+        # columns, comments, hyperlinks, widths, frozen panes, a filter, a validation, a conditional format) - same expectations
+        dsh = getattr(mod, 'DECORATED_SHARDS', None)
+        idx = dsh(shards[:base_n]) if callable(dsh) else (dsh if dsh is not None else sorted({1 % base_n, (2 * base_n) // 3}))
+        if os.environ.get('VERIF_NO_DECORATED_SHARDS'):
+            idx = []
+        extra = []
+        for i in idx:
+            sh = dict(shards[i])
+            sh['_env'] = dict(sh.get('_env') or {}, VERIF_DECORATE='7')
+            sh['decorated_workbooks'] = True
+            extra.append(sh)
+        shards = shards + extra
 
     outs = parallel.run_all(prop, shards, tier, seed, workroot, TIMEOUT[tier])
     r = Result()
